@@ -410,6 +410,36 @@ def closure_family(maxlen=3):
 
 
 # ------------------------------------------------------------------------------------------------
+# the branch family: a local function defined or REdefined inside a branch / loop body of varying length, called
+# inside the branch and again after the join, the captured variable having another type at the second call
+# ------------------------------------------------------------------------------------------------
+def branch_family():
+    g = lambda: ('def', 'g1', [], [], [('return', ('name', 'x'))])
+    call = ('expr', ('lcall', 'g1', []))
+    fill = [('assign', 'y', _L('int')), ('assign', 'z', _L('bool'))]
+    for predef in (True, False):
+        for kind in ('ifelse', 'if', 'while', 'for'):
+            for before in range(3):
+                for after in range(3):
+                    for other in (range(3) if kind == 'ifelse' else (0,)):
+                        for inside in (True, False):
+                            for rebind in (('assign', 'x', _L('float')), ('assign', 'x', _L('str'))):
+                                for last in (call, ('assign', 'y', ('lcall', 'g1', []))):
+                                    blk = fill[:before] + [g()] + ([call] if inside else []) + fill[:after]
+                                    if kind == 'ifelse':
+                                        st = ('if', 'cb', fill[:other] or [('pass',)], blk)
+                                    elif kind == 'if':
+                                        st = ('if', 'cb', blk, [])
+                                    elif kind == 'while':
+                                        st = ('while', 'cb', blk)
+                                    else:
+                                        st = ('for', 'z', ('list', [_L('int'), _L('int')]), blk)
+                                    body = [('assign', 'x', _L('int'))] + ([g()] if predef else []) + [st, rebind, last,
+                                                                                                      ('return', ('name', 'x'))]
+                                    yield dict(params=[('a', [['int']])], body=body)
+
+
+# ------------------------------------------------------------------------------------------------
 # random programs of the full class (closures, nonlocal, unpacking, external calls ...)
 # ------------------------------------------------------------------------------------------------
 class Gen:
@@ -628,6 +658,11 @@ class Gen:
         self.nfn += 1
         name = 'g%d' % self.nfn
         params = ['p'] if self.r.random() < 0.3 else []
+        mine = [(g, ar) for g, ar in ctx['fns'] if g in ctx['mine']]
+        redefine = bool(mine) and ctx['depth'] > 0 and self.r.random() < 0.4
+        if redefine:                                  # a second definition of the same name on some path
+            name, ar = self.r.choice(mine)
+            params = ['p'] * ar
         cand = sorted({v for v in ctx['mine'] + ctx['outer'] if v in self.VARS or v in ('a', 'b')})
         nl = []
         if cand and self.r.random() < 0.6:
@@ -646,7 +681,8 @@ class Gen:
         body += self.block(sub, 1, 2)
         if body[-1][0] not in ('return', 'break', 'continue') and self.r.random() < 0.5:
             body.append(('return', self.any_expr(sub)[0]))
-        ctx['fns'].append((name, len(params)))
+        if not redefine:
+            ctx['fns'].append((name, len(params)))
         if name not in ctx['mine']:
             ctx['mine'].append(name)
         return ('def', name, params, nl, body)
